@@ -37,11 +37,15 @@ class _VirtualSelector:
             loop._vtime += timeout
             loop._idle_spins = 0
             return []
-        # timeout == 0: something is runnable right now (exabgp's main loop spins on sleep(0)).
-        # A spin costs a little virtual time; once nothing observable has happened for a few spins the
-        # clock jumps to the next timer, as it would on an idle loop.
-        loop._idle_spins += 1
+        # timeout == 0: something is runnable right now.  exabgp's main loop (and a passive peer) spin on
+        # sleep(0); when the only runnable things are such spinners, nothing will happen before the next timer
+        # or I/O, and the clock jumps there as it would on an idle loop.  Anything else runnable = real work:
+        # it costs a little virtual time and never skips a timer.
         loop._total_spins += 1
+        if loop._only_spinners_ready():
+            loop._idle_spins += 1
+        else:
+            loop._idle_spins = 0
         if loop._idle_spins >= loop.SPIN_LIMIT:
             nxt = loop._next_timer()
             if nxt is None:
@@ -69,8 +73,20 @@ class VirtualLoop(asyncio.SelectorEventLoop):
         self._idle_spins = 0
         self._total_spins = 0
 
-    SPIN_LIMIT = 8
+    SPIN_LIMIT = 4
     SPIN_COST = 0.0001
+    is_spinner = None  # callable(task) -> bool, installed by the harness
+
+    def _only_spinners_ready(self) -> bool:
+        if self.is_spinner is None:
+            return False
+        for handle in self._ready:
+            if handle._cancelled:
+                continue
+            task = getattr(handle._callback, '__self__', None)
+            if not isinstance(task, asyncio.Task) or not self.is_spinner(task):
+                return False
+        return True
 
     def note_activity(self) -> None:
         """the harness saw something observable happen (bytes written, state change): do not skip time yet"""
